@@ -1667,6 +1667,62 @@ func R58() Rule {
 						}
 					}
 				}
+				// (e) only names that carry the requested prefix are recorded: every append / map update in the
+				// walk callback is dominated by the true edge of strings.HasPrefix(<the callback's name>, _)
+				lscope := P.ScopeSet(fn, func(f *ssa.Function) bool { return core.PkgPathOf(f) != core.PkgGcsemu })
+				for _, f := range P.Scope(fn, func(f *ssa.Function) bool { return core.PkgPathOf(f) != core.PkgGcsemu }) {
+					// the walk callback: (ctx, filename string, fInfo os.FileInfo) error, as a closure or a method
+					var nameParam *ssa.Parameter
+					nStr := 0
+					hasInfo := false
+					for _, pa := range f.Params {
+						if isStringType(pa.Type()) {
+							nStr++
+							nameParam = pa
+						}
+						if nn := core.NamedOf(pa.Type()); nn != nil && nn.Obj().Name() == "FileInfo" {
+							hasInfo = true
+						}
+					}
+					if !hasInfo || nStr != 1 || f == fn {
+						continue
+					}
+					k := 0
+					for _, b := range f.Blocks {
+						for _, in := range b.Instrs {
+							isRecord := false
+							switch x := in.(type) {
+							case *ssa.Call:
+								if bi, isB := x.Call.Value.(*ssa.Builtin); isB && bi.Name() == "append" {
+									isRecord = true
+								}
+							case *ssa.MapUpdate:
+								isRecord = true
+							}
+							if !isRecord {
+								continue
+							}
+							k++
+							// … directly, or at the deciding return of a predicate helper (`if l.shouldSkip(name) { return nil }`)
+							okPfx := P.InAllContexts(in, []ssa.Value{nameParam}, lscope, func(at ssa.Instruction, vals []ssa.Value) bool {
+								if vals[0] == nil {
+									return false
+								}
+								for _, fct := range core.FactsAt(at.Block()) {
+									hp, isC := core.Resolve(fct.Cond).(*ssa.Call)
+									if !isC || !fct.Polarity || !core.Call(hp).IsFunc("strings", "HasPrefix") {
+										continue
+									}
+									if core.Resolve(hp.Call.Args[0]) == core.Resolve(vals[0]) {
+										return true
+									}
+								}
+								return false
+							})
+							c.Check(okPfx, "R58", fmt.Sprintf("e/%s/recorded-names-carry-the-prefix#%d", core.FuncName(f), k), in.Pos(), "recorded only under strings.HasPrefix(name, prefix)", "the listing records a name without having established strings.HasPrefix(name, prefix): objects outside the requested prefix (e.g. one whose name is a proper prefix of it) are returned, take a maxResults slot and can become the page cursor")
+						}
+					}
+				}
 			}
 		}
 	}}
